@@ -83,8 +83,71 @@ pub fn split_items(backend: Backend, bytes: &[u8]) -> Option<Vec<String>> {
     }
 }
 
-fn mentions(item_norm: &str, names_norm: &[String]) -> bool {
-    names_norm.iter().any(|n| item_norm.contains(n.as_str()))
+/// Relatedness of an item to the excluded declarations' inheritance families, decided per
+/// identifier token: a token is attributed to the LONGEST declaration name (of the whole
+/// file, normalised) it contains; it is related when that name belongs to a family (ties
+/// between a family and a non-family name of equal length count as related). So
+/// `StatusReportView` belongs to `StatusReport`, not to an excluded `Status`, while
+/// `StatusBuilder`, `IsValidStatus` and `status` do belong to `Status`.
+pub struct Relation {
+    /// (normalised declaration name, is in a family of E)
+    names: Vec<(String, bool)>,
+    cache: std::collections::HashMap<String, bool>,
+}
+
+impl Relation {
+    pub fn new(all_decls: &[String], family: &BTreeSet<String>) -> Relation {
+        let mut names: Vec<(String, bool)> = all_decls.iter().map(|d| (norm(d), family.contains(d))).filter(|(n, _)| !n.is_empty()).collect();
+        // family members that are not (or no longer) in the declaration list still count
+        for f in family {
+            if !all_decls.contains(f) {
+                names.push((norm(f), true));
+            }
+        }
+        Relation { names, cache: std::collections::HashMap::new() }
+    }
+
+    fn token_related(&mut self, tok: &str) -> bool {
+        if let Some(r) = self.cache.get(tok) {
+            return *r;
+        }
+        let t = norm(tok);
+        let mut best_len = 0usize;
+        let mut best_family = false;
+        for (n, fam) in &self.names {
+            if n.len() >= best_len && t.contains(n.as_str()) {
+                if n.len() > best_len {
+                    best_len = n.len();
+                    best_family = *fam;
+                } else if *fam {
+                    best_family = true;
+                }
+            }
+        }
+        let r = best_len > 0 && best_family;
+        self.cache.insert(tok.to_string(), r);
+        r
+    }
+
+    pub fn related(&mut self, item: &str) -> bool {
+        let mut start: Option<usize> = None;
+        let bytes = item.as_bytes();
+        for i in 0..=bytes.len() {
+            let is_id = i < bytes.len() && (bytes[i].is_ascii_alphanumeric() || bytes[i] == b'_');
+            match (start, is_id) {
+                (None, true) => start = Some(i),
+                (Some(s), false) => {
+                    let tok = &item[s..i];
+                    if !tok.as_bytes()[0].is_ascii_digit() && self.token_related(tok) {
+                        return true;
+                    }
+                    start = None;
+                }
+                _ => {}
+            }
+        }
+        false
+    }
 }
 
 #[derive(Debug, Default, Clone)]
@@ -98,14 +161,15 @@ pub struct ExclusionStats {
 pub fn exclusion_diff_items(
     base_items: &[String],
     excl_items: &[String],
+    all_decls: &[String],
     family: &BTreeSet<String>,
 ) -> (ExclusionStats, Option<String>) {
-    let names: Vec<String> = family.iter().map(|n| norm(n)).filter(|n| !n.is_empty()).collect();
+    let mut rel = Relation::new(all_decls, family);
     let mut stats = ExclusionStats::default();
     let mut count = |items: &[String]| -> BTreeMap<String, i64> {
         let mut m = BTreeMap::new();
         for it in items {
-            if mentions(&norm(it), &names) {
+            if rel.related(it) {
                 stats.skipped_related += 1;
             } else {
                 stats.compared += 1;
@@ -137,12 +201,14 @@ pub fn exclusion_diff_items(
 pub fn exclusion_diff_files(
     base: &BTreeMap<String, Vec<u8>>,
     excl: &BTreeMap<String, Vec<u8>>,
+    all_decls: &[String],
     family: &BTreeSet<String>,
 ) -> (ExclusionStats, Option<String>) {
-    let names: Vec<String> = family.iter().map(|n| norm(n)).filter(|n| !n.is_empty()).collect();
+    let rel = std::cell::RefCell::new(Relation::new(all_decls, family));
     let mut stats = ExclusionStats::default();
     let related = |name: &str, content: &[u8]| -> bool {
-        mentions(&norm(name), &names) || mentions(&norm(&String::from_utf8_lossy(content)), &names)
+        let mut r = rel.borrow_mut();
+        r.related(name) || r.related(&String::from_utf8_lossy(content))
     };
     for (name, content) in base {
         if related(name, content) {
